@@ -9,4 +9,4 @@ def prop(pid, rules, explanation, declined, thorough_rules=None):
                        'thorough_rules': thorough_rules or []}
 
 
-THOROUGH_CONFIGS = ['py312', 'py39', 'py310', 'py311', 'py313', 'py313t']
+THOROUGH_CONFIGS = ['py312', 'py311', 'py313', 'py313t']
